@@ -1,20 +1,155 @@
-/- C07 — segmented LRU policy (initial statements; the full step = spec theorems follow the SLRU backbone) -/
-import Caches.Model.Slru
-import Caches.Lemmas.RawLru
+/-
+  C07 — SegmentedCache follows the segmented-LRU policy.
+  `SlruSpec` is the policy as the property text states it; the theorems say that on every well-formed cache
+  (all capacity pairs ≥ 1, all contents) the model of the code computes exactly that, and draw the corollaries
+  the property names: new keys enter probationary; a hit in probationary promotes; a hit in protected only refreshes;
+  a demotion never evicts; only probationary's LRU is ever evicted for a new key; `put_protected` places the key in
+  protected and nowhere else.
+-/
+import Caches.Lemmas.Slru
+import Caches.Props.SlruSpec
+set_option linter.unusedSectionVars false
+set_option linter.unusedVariables false
 namespace C07
 open M
 variable {κ ν : Type} [DecidableEq κ]
 
-/-- a key found in neither segment enters the probationary segment (as `RawLru.put` there), protected is untouched -/
-theorem new_enters_probationary (s : Slru κ ν) (k : κ) (v : ν)
-    (hq : find k s.prot.items = none) (hp : find k s.prob.items = none) :
-    s.put k v = (match s.prob.put k v with
-      | .error f => .error f
-      | .ok (prob', r, e) => .ok (r, { s with prob := prob' }, e.drops)) := by
-  unfold Slru.put RawLru.contains; simp only [hq, hp]; rfl
+theorem promote_eq_spec (s : Slru κ ν) (k : κ) (w : Option ν) (old : ν) (h : s.Inv) (hf : find k s.prob.items = some old) :
+    ∃ s', s.promote k w = .ok (some old, s') ∧
+      (s'.prob.items, s'.prot.items) = SlruSpec.promote s.prob.items s.prot.items s.prot.cap k (w.getD old) ∧
+      s'.prob.cap = s.prob.cap ∧ s'.prot.cap = s.prot.cap := by
+  rcases Slru.promote_spec s k w old h hf with ⟨hroom, hp⟩ | ⟨hfull, dem, hd, hp⟩
+  · refine ⟨_, hp, ?_, rfl, rfl⟩
+    unfold SlruSpec.promote
+    have : ¬ s.prot.items.length ≥ s.prot.cap := by omega
+    simp only [this, if_false]
+  · refine ⟨_, hp, ?_, rfl, rfl⟩
+    unfold SlruSpec.promote
+    have : s.prot.items.length ≥ s.prot.cap := by omega
+    simp only [this, if_true, hd]
 
-/-- a hit on a protected entry only refreshes it: probationary unchanged, entry at the protected head -/
+/-- **`put` = the policy** -/
+theorem put_eq_spec (s : Slru κ ν) (k : κ) (v : ν) (h : s.Inv) :
+    ∃ r s' d, s.put k v = .ok (r, s', d) ∧
+      (s'.prob.items, s'.prot.items, r) = SlruSpec.put s.prob.items s.prot.items s.prob.cap s.prot.cap k v := by
+  unfold Slru.put SlruSpec.put
+  cases hq : find k s.prot.items with
+  | some old => exact ⟨_, _, _, rfl, by simp [RawLru.update, use]⟩
+  | none =>
+    simp only
+    cases hp : find k s.prob.items with
+    | some old =>
+      obtain ⟨s', hpr, heq, _, _⟩ := promote_eq_spec s k (some v) old h hp
+      simp only [RawLru.contains, hp, Option.isSome_some, if_true, hpr]
+      refine ⟨_, _, _, rfl, ?_⟩
+      simp only [Option.getD_some] at heq
+      rw [← heq]
+    | none =>
+      simp only [RawLru.contains, hp, Option.isSome_none, Bool.false_eq_true, if_false]
+      have hp0 : s.prob.cap ≠ 0 := by have := h.pp; omega
+      by_cases hfull : s.prob.items.length = s.prob.cap
+      · obtain ⟨lru, hl⟩ := getLast?_some_of_pos s.prob.items (by have := h.pp; omega)
+        simp only [RawLru.put_absent_full s.prob k v lru hp hfull hp0 hl]
+        refine ⟨_, _, _, rfl, ?_⟩
+        have : s.prob.items.length ≥ s.prob.cap := by omega
+        simp only [this, if_true, hl]
+      · have hroom : s.prob.items.length < s.prob.cap := by have := h.bp; omega
+        simp only [RawLru.put_absent_room s.prob k v hp hroom]
+        refine ⟨_, _, _, rfl, ?_⟩
+        have : ¬ s.prob.items.length ≥ s.prob.cap := by omega
+        simp only [this, if_false]
+
+/-- **`get` / `get_mut` = the policy** -/
+theorem get_eq_spec (s : Slru κ ν) (k : κ) (w : Option ν) (h : s.Inv) :
+    ∃ r s', s.getMut k w = .ok (r, s') ∧
+      (s'.prob.items, s'.prot.items, r) = SlruSpec.get s.prob.items s.prot.items s.prot.cap k w := by
+  unfold Slru.getMut RawLru.getMut SlruSpec.get
+  cases hq : find k s.prot.items with
+  | some old => exact ⟨_, _, rfl, by simp [use]⟩
+  | none =>
+    simp only
+    cases hp : find k s.prob.items with
+    | none => exact ⟨_, _, rfl, rfl⟩
+    | some old =>
+      obtain ⟨s', hpr, heq, _, _⟩ := promote_eq_spec s k w old h hp
+      simp only [hpr]
+      refine ⟨_, _, rfl, ?_⟩
+      rw [← heq]
+
+/-- new keys enter the probationary segment (its most-recent end); protected is untouched -/
+theorem new_enters_probationary (s : Slru κ ν) (k : κ) (v : ν) (h : s.Inv)
+    (hq : find k s.prot.items = none) (hp : find k s.prob.items = none) :
+    ∃ r s' d, s.put k v = .ok (r, s', d) ∧ s'.prob.items.head? = some (k, v) ∧ s'.prot.items = s.prot.items := by
+  obtain ⟨r, s', d, hput, heq⟩ := put_eq_spec s k v h
+  refine ⟨r, s', d, hput, ?_⟩
+  unfold SlruSpec.put at heq
+  simp only [hq, hp] at heq
+  split at heq
+  · split at heq <;> (injection heq with h1 h2; injection h2 with h2 _; rw [h1, h2]; simp)
+  · injection heq with h1 h2; injection h2 with h2 _; rw [h1, h2]; simp
+
+/-- only the least-recent probationary entry is ever evicted to admit a new key -/
+theorem only_prob_lru_evicted (s : Slru κ ν) (k : κ) (v : ν) (h : s.Inv) (r : PutResult κ ν) (s' : Slru κ ν) (d : List (Obj κ ν))
+    (hput : s.put k v = .ok (r, s', d)) (ek : κ) (ev : ν) (hr : r = .evicted ek ev) :
+    s.prob.items.getLast? = some (ek, ev) ∧ find k s.prob.items = none ∧ find k s.prot.items = none ∧
+      s'.prot.items = s.prot.items := by
+  obtain ⟨r0, s0, d0, hput0, heq⟩ := put_eq_spec s k v h
+  rw [hput] at hput0; injection hput0 with h1; injection h1 with hr0 h2; injection h2 with hs0 _
+  subst hr0; subst hs0; subst hr
+  unfold SlruSpec.put at heq
+  cases hq : find k s.prot.items with
+  | some old => simp [hq] at heq
+  | none =>
+    cases hp : find k s.prob.items with
+    | some old => simp [hq, hp] at heq
+    | none =>
+      simp only [hq, hp] at heq
+      split at heq
+      · cases hl : s.prob.items.getLast? with
+        | none => simp [hl] at heq
+        | some lru =>
+          simp only [hl] at heq
+          injection heq with h1 h2; injection h2 with h2 h3
+          injection h3 with h3 h4
+          exact ⟨by rw [h3, h4], rfl, rfl, h2⟩
+      · simp at heq
+
+/-- a demotion never evicts: a hit (get / get_mut / put on a resident key) keeps exactly the same set of keys -/
+theorem hit_keeps_all_keys (s : Slru κ ν) (k : κ) (w : Option ν) (h : s.Inv) (r : Option ν) (s' : Slru κ ν)
+    (hg : s.getMut k w = .ok (r, s')) : ∀ x, Slru.Held s' x ↔ Slru.Held s x :=
+  Slru.getMut_held s s' k w r h hg
+
+/-- a hit on a protected entry only refreshes it: probationary unchanged, the entry moves to protected's most-recent end -/
 theorem hit_protected_refreshes (s : Slru κ ν) (k : κ) (v old : ν) (hq : find k s.prot.items = some old) :
     s.put k v = .ok (.update old, { s with prot := { s.prot with items := (k, v) :: erase k s.prot.items } }, [.key k]) := by
   unfold Slru.put; simp [hq, RawLru.update, use]
+
+/-- a hit on a probationary entry promotes it to the most-recent end of protected -/
+theorem hit_probationary_promotes (s : Slru κ ν) (k : κ) (w : Option ν) (old : ν) (h : s.Inv)
+    (hq : find k s.prot.items = none) (hp : find k s.prob.items = some old) :
+    ∃ s', s.getMut k w = .ok (some old, s') ∧ s'.prot.items.head? = some (k, w.getD old) ∧ k ∉ keys s'.prob.items := by
+  have ef := erase_facts _ k old hp h.ndp
+  have hkq := (find_none_iff k _).1 hq
+  unfold Slru.getMut RawLru.getMut
+  simp only [hq, hp]
+  rcases Slru.promote_spec s k w old h hp with ⟨_, hpr⟩ | ⟨_, dem, hd, hpr⟩
+  · exact ⟨_, hpr, by simp, ef.2.1⟩
+  · refine ⟨_, hpr, by simp, ?_⟩
+    have lf := last_facts _ _ hd h.ndq
+    simp only [keys_cons', List.mem_cons, not_or]
+    exact ⟨fun hc => hkq (hc ▸ lf.1), ef.2.1⟩
+
+/-- `put_protected` places the key in the protected segment and nowhere else -/
+theorem putProtected_only_protected (s : Slru κ ν) (k : κ) (v : ν) (h : s.Inv) :
+    ∃ r s' d, s.putProtected k v = .ok (r, s', d) ∧ s'.Inv ∧ k ∈ keys s'.prot.items ∧ k ∉ keys s'.prob.items := by
+  obtain ⟨r, s', d, hp, hi, _, hin, hnot⟩ := Slru.putProtected_total_inv s k v h
+  exact ⟨r, s', d, hp, hi, hin, hnot⟩
+
+/-- the per-segment accessors behave as the plain-LRU ones on the named segment -/
+theorem segment_accessors (s : Slru κ ν) :
+    s.prob.peekLru = s.prob.items.getLast? ∧ s.prob.peekMru = s.prob.items.head? ∧
+    s.prot.peekLru = s.prot.items.getLast? ∧ s.prot.peekMru = s.prot.items.head? := ⟨rfl, rfl, rfl, rfl⟩
+
+/-- non-vacuity: promotion with demotion on a concrete full cache -/
+example : SlruSpec.promote [(1, 10), (2, 20)] [(3, 30)] 1 2 (20 : Nat) = ([(3, 30), (1, 10)], [(2, 20)]) := by decide
 end C07
